@@ -435,7 +435,8 @@ func genInboxF(r *rng, ty string, k int, focus bool) *scenario {
 // One member of an otherwise valid request made absent / null / empty / doubled / a plain string / an embedded value
 // without id: the glue around the modelled core (which property is required, what an empty list means, who is asked first).
 var shapeProps = []string{"actor", "object", "target", "to", "cc", "bto", "bcc", "audience", "id", "type", "inReplyTo", "attributedTo", "origin"}
-var shapeEdits = []string{"absent", "empty", "double", "string", "noid", "nonstring"} // a JSON null for a known property is not modelled (pub model: nulls dropped on decoding)
+var relRefs = []string{"not an iri", "//remote.example/activities/relative", "/activities/1", "?x=1", "#frag", "remote.example/a"}
+var shapeEdits = []string{"absent", "empty", "double", "string", "noid", "nonstring", "ref0", "ref1", "ref2", "ref3", "ref4", "ref5"} // a JSON null for a known property is not modelled (pub model: nulls dropped on decoding)
 
 func genShape(r *rng, reps int) []*scenario {
 	var out []*scenario
@@ -476,6 +477,12 @@ func genShape(r *rng, reps int) []*scenario {
 						if e == "nonstring" && p != "type" {
 							continue
 						}
+						if strings.HasPrefix(e, "ref") && p != "id" {
+							continue
+						}
+						if e == "string" && p == "id" {
+							continue // covered by ref0 .. ref5
+						}
 						if !has && !(p == "object" || p == "target" || p == "actor") {
 							continue
 						}
@@ -496,7 +503,9 @@ func genShape(r *rng, reps int) []*scenario {
 								body[p] = []interface{}{v, v}
 							}
 						case "string":
-							body[p] = []string{"not an iri", "//remote.example/activities/relative", "/activities/1", "?x=1", "#frag", "remote.example/a"}[len(out)%6]
+							body[p] = relRefs[len(out)%6]
+						case "ref0", "ref1", "ref2", "ref3", "ref4", "ref5": // the id as every kind of relative reference / bare word
+							body[p] = relRefs[int(e[3]-'0')]
 						case "noid":
 							body[p] = jmap{"type": "Note", "content": "no id"}
 						case "nonstring": // a list of type names none of which is a string
